@@ -1,4 +1,6 @@
+#define VT_NO_GUARD_MACROS 1
 #include "vtrace.h"
+#include <pthread.h>
 #include <execinfo.h>
 #include <signal.h>
 #include <unistd.h>
@@ -302,27 +304,65 @@ uint64_t vt_mutate_word(uint64_t h) {
 #define GB_PAD 8192      /* 1024 cell slots either side: an overrun by a whole sub-tree level still lands in the canaries */
 /* The canary bytes rotate between allocations (0x5A.., all ones = -1 in every integer width, zero, 0x7F..): an out-of-bounds READ
  * whose effect depends on the value it finds (a sentinel comparison, a loop bound) then shows up as a difference or as a write. */
-typedef struct { size_t bytes; uint64_t magic; unsigned char before, after; } GbHdr;
+typedef struct { size_t bytes; uint64_t magic; size_t pad; unsigned char before, after, fill[6]; } GbHdr;   /* 32 bytes: user pointer stays 16-aligned */
 static unsigned gb_ctr = 0;
-void *gb_alloc(size_t n, size_t sz, unsigned char fill) {
+static void *gb_alloc_pad(size_t bytes, unsigned char fill, size_t pad) {
     static const unsigned char PB[4] = {0xA5, 0xFF, 0x00, 0x80}, PA[4] = {0x5A, 0xFF, 0x00, 0x7F};
-    size_t bytes = n * sz;
-    unsigned char *raw = malloc(sizeof(GbHdr) + GB_PAD + bytes + GB_PAD);
+    unsigned char *raw = malloc(sizeof(GbHdr) + pad + bytes + pad);
     if (!raw) { fprintf(stderr, "gb_alloc: out of memory\n"); exit(2); }
-    GbHdr *h = (GbHdr *)raw; h->bytes = bytes; h->magic = 0xC0FFEE1234ULL; h->before = PB[gb_ctr % 4]; h->after = PA[gb_ctr % 4]; gb_ctr++;
-    memset(raw + sizeof(GbHdr), h->before, GB_PAD);
-    memset(raw + sizeof(GbHdr) + GB_PAD, fill, bytes);
-    memset(raw + sizeof(GbHdr) + GB_PAD + bytes, h->after, GB_PAD);
-    return raw + sizeof(GbHdr) + GB_PAD;
+    unsigned c = __atomic_fetch_add(&gb_ctr, 1, __ATOMIC_RELAXED);
+    GbHdr *h = (GbHdr *)raw; h->bytes = bytes; h->magic = 0xC0FFEE1234ULL; h->pad = pad; h->before = PB[c % 4]; h->after = PA[c % 4];
+    memset(raw + sizeof(GbHdr), h->before, pad);
+    memset(raw + sizeof(GbHdr) + pad, fill, bytes);
+    memset(raw + sizeof(GbHdr) + pad + bytes, h->after, pad);
+    return raw + sizeof(GbHdr) + pad;
 }
-int gb_ok(void *p) {
-    unsigned char *u = (unsigned char *)p - GB_PAD; GbHdr *h = (GbHdr *)(u - sizeof(GbHdr));
-    if (h->magic != 0xC0FFEE1234ULL) return 0;
-    for (int i = 0; i < GB_PAD; i++) if (u[i] != h->before) return 0;
+static GbHdr *gb_hdr(void *p, size_t pad) { return (GbHdr *)((unsigned char *)p - pad - sizeof(GbHdr)); }
+static int gb_ok_pad(void *p, size_t pad) {
+    GbHdr *h = gb_hdr(p, pad); unsigned char *u = (unsigned char *)p - pad;
+    if (h->magic != 0xC0FFEE1234ULL || h->pad != pad) return 0;
+    for (size_t i = 0; i < pad; i++) if (u[i] != h->before) return 0;
     unsigned char *e = (unsigned char *)p + h->bytes;
-    for (int i = 0; i < GB_PAD; i++) if (e[i] != h->after) return 0;
+    for (size_t i = 0; i < pad; i++) if (e[i] != h->after) return 0;
     return 1;
 }
+void *gb_alloc(size_t n, size_t sz, unsigned char fill) { return gb_alloc_pad(n * sz, fill, GB_PAD); }
+int gb_ok(void *p) { return gb_ok_pad(p, GB_PAD); }
+
+/* ---- every malloc / calloc / realloc / free of the drivers (macros in vtrace.h) goes through guarded blocks with 1 KB canaries; a
+ * block found damaged when it is freed was overrun by whoever it was handed to: an Overrun event (no trace specification
+ * consumes it).  Pointers that did not come from here (open_memstream, the C library) are passed to the real free. */
+#define GM_PAD 1024
+static pthread_mutex_t gm_mu = PTHREAD_MUTEX_INITIALIZER;
+static void **gm_tab = NULL; static size_t gm_cap = 0, gm_n = 0;
+static size_t gm_slot(void *p) { size_t i = ((uintptr_t)p >> 4) * 0x9E3779B97F4A7C15ULL % gm_cap; while (gm_tab[i] && gm_tab[i] != p) i = (i + 1) % gm_cap; return i; }
+static void gm_add(void *p) {
+    pthread_mutex_lock(&gm_mu);
+    if ((gm_n + 1) * 2 > gm_cap) { size_t oc = gm_cap; void **ot = gm_tab; gm_cap = oc ? oc * 2 : 4096; gm_tab = calloc(gm_cap, sizeof(void *)); gm_n = 0;
+        for (size_t i = 0; i < oc; i++) if (ot[i] && ot[i] != (void *)1) { gm_tab[gm_slot(ot[i])] = ot[i]; gm_n++; } free(ot); }
+    gm_tab[gm_slot(p)] = p; gm_n++;
+    pthread_mutex_unlock(&gm_mu);
+}
+static int gm_del(void *p) {      /* 1 if p was one of ours */
+    int found = 0; pthread_mutex_lock(&gm_mu);
+    if (gm_cap) { size_t i = ((uintptr_t)p >> 4) * 0x9E3779B97F4A7C15ULL % gm_cap; while (gm_tab[i]) { if (gm_tab[i] == p) { gm_tab[i] = (void *)1; found = 1; break; } i = (i + 1) % gm_cap; } }
+    pthread_mutex_unlock(&gm_mu); return found;
+}
+void *vt_gmalloc(size_t sz) { void *p = gb_alloc_pad(sz, 0xCD, GM_PAD); gm_add(p); return p; }
+void *vt_gcalloc(size_t n, size_t sz) { void *p = gb_alloc_pad(n * sz, 0, GM_PAD); gm_add(p); return p; }
+void vt_gfree(void *p) {
+    if (!p) return;
+    if (!gm_del(p)) { free(p); return; }
+    if (!gb_ok_pad(p, GM_PAD) && vt_out) fputs("{\"e\":\"Overrun\",\"f\":\"?\",\"how\":\"a heap block of the harness was written outside its bounds\"}\n", vt_out);
+    free((unsigned char *)p - GM_PAD - sizeof(GbHdr));
+}
+void *vt_grealloc(void *p, size_t sz) {
+    if (!p) return vt_gmalloc(sz);
+    pthread_mutex_lock(&gm_mu); int ours = 0; if (gm_cap) { size_t i = ((uintptr_t)p >> 4) * 0x9E3779B97F4A7C15ULL % gm_cap; while (gm_tab[i]) { if (gm_tab[i] == p) { ours = 1; break; } i = (i + 1) % gm_cap; } } pthread_mutex_unlock(&gm_mu);
+    if (!ours) return realloc(p, sz);
+    size_t old = gb_hdr(p, GM_PAD)->bytes; void *q = vt_gmalloc(sz); memcpy(q, p, old < sz ? old : sz); vt_gfree(p); return q;
+}
+
 /* a library function wrote outside the buffer of the documented size that a generator (not an observation) gave it: recorded as an
  * event no trace specification can consume, like a crash inside the library */
 void vt_overrun_check(void *p, const char *f, uint64_t arg) {
